@@ -415,8 +415,9 @@ static void c02_prior_case(int fmt, int fld, int path, int g, uint64_t u, uint64
 {
     const RowFmt* F = &g_fmts[fmt];
     Obj o; c02_prior_obj(&o, fmt);
-    int selfones = g / 1000;      /* g >= 1000: the field under test holds all-ones before the write */
-    if (selfones) ref_set(obj_hdr(&o), (unsigned)F->f[fld].off, (unsigned)F->f[fld].w, mask_w((unsigned)F->f[fld].w));
+    int selfmode = g / 1000;      /* g >= 1000: the field under test holds all-ones before the write; g >= 2000: it holds (g/1000 - 2) */
+    if (selfmode == 1) ref_set(obj_hdr(&o), (unsigned)F->f[fld].off, (unsigned)F->f[fld].w, mask_w((unsigned)F->f[fld].w));
+    if (selfmode >= 2) ref_set(obj_hdr(&o), (unsigned)F->f[fld].off, (unsigned)F->f[fld].w, (uint64_t)(selfmode - 2) & mask_w((unsigned)F->f[fld].w));
     ref_set(obj_hdr(&o), (unsigned)F->f[g % 1000].off, (unsigned)F->f[g % 1000].w, u & mask_w((unsigned)F->f[g % 1000].w));
     char cs[160];
     SETCS("C02", 3, (long long)(fmt), (long long)(fld), (long long)(path), (long long)(g), (long long)(u), (long long)((unsigned long long)v));
@@ -452,6 +453,11 @@ static void suite_c02_priors(void)
                 /* the same with the field itself at all-ones before the write (a 1 -> 0 transition that triggers something) */
                 c.g1 = g + 1000;
                 for (int ui = 0; ui < nu; ui++) { c.u = us[ui]; sv_small_fn((unsigned)R->w, c02_pval, &c); }
+                /* ... and with the field itself at a small value (a code such as a format) that is then changed to another small value */
+                if (!g_lite && R->w >= 2 && R->w <= 16) for (int sv = 1; sv <= 8 && (uint64_t)sv <= mask_w((unsigned)R->w); sv++) {
+                    c.g1 = g + 1000 * (2 + sv);
+                    for (int ui = 0; ui < nu; ui++) { c.u = us[ui]; for (uint64_t v = 0; v <= 8 && v <= mask_w((unsigned)R->w); v++) c02_pval(v, &c); }
+                }
                 c.g1 = g;
             }
             if (!g_thorough) continue;
